@@ -110,7 +110,7 @@ def check_proofs(pid, tier):
     exs = [n for n, (k, _) in st.items() if k == "Example"]
     res["theorems"], res["examples"] = thms, exs
     res["obligations"] = len(thms) + len(exs) + 2        # + statement pins + forbidden-word scan
-    r = coq_make([f"Properties/{pid}.vo", "Extract.vo", "ExtractCo.vo"])
+    r = coq_make([f"Properties/{pid}.vo", "Extract.vo", "ExtractCo.vo", "ExtractMon.vo"])
     res["log"] = r.stdout[-3000:]
     if r.returncode != 0:
         m = re.search(r'File "([^"]+)", line (\d+).*?\n(Error:.*?)(?:\n\n|\Z)', r.stdout, re.S)
@@ -183,7 +183,8 @@ def cmd_pin():
 def build_runner():
     with Lock("runner"):
         rd = os.path.join(ROOT, "runner")
-        for exe, srcs in (("runner", ["model.mli", "model.ml", "main.ml"]), ("coacc", ["costream.mli", "costream.ml", "comain.ml"])):
+        for exe, srcs in (("runner", ["model.mli", "model.ml", "main.ml"]), ("coacc", ["costream.mli", "costream.ml", "comain.ml"]),
+                          ("montool", ["mon.mli", "mon.ml", "montool.ml"])):
             out = os.path.join(CACHE, exe)
             if not os.path.exists(out) or any(os.path.getmtime(os.path.join(rd, s)) > os.path.getmtime(out) for s in srcs):
                 bd = os.path.join(CACHE, "ocaml-" + exe)
@@ -517,6 +518,23 @@ def decide(pid, tier, seed):
             batch_fail.append((sname, cfg, err, bad))
             continue
         model, note = run_model(runner, coacc, kind, cfg, cases, impl)
+        coqmon = {}
+        if kind == "scan":
+            # the Coq-extracted trace predicates (the functions the theorems are about) evaluated on the implementation's traces
+            cf = os.path.join(CACHE, f"mon-{os.getpid()}.cases")
+            tf = os.path.join(CACHE, f"mon-{os.getpid()}.traces")
+            open(cf, "w").write("\n".join(cases) + "\n")
+            open(tf, "w").write("\n".join(impl) + "\n")
+            p = subprocess.run([os.path.join(CACHE, "montool"), cf, tf, cfg, pid], text=True, capture_output=True, timeout=900)
+            os.unlink(cf)
+            os.unlink(tf)
+            for l in p.stdout.splitlines():
+                m = re.match(r"(\S+) (\w+) fails$", l)
+                if m:
+                    coqmon[m.group(1)] = f"the Coq predicate {m.group(2)} (extracted from the development; see coq/ExtractMon.v) rejects this trace"
+                m = re.match(r"evaluated=(\d+) failed=(\d+)", l)
+                if m:
+                    stats["coq_monitor_evals"] = stats.get("coq_monitor_evals", 0) + int(m.group(1))
         for idx, (case, a) in enumerate(zip(cases, impl)):
             stats["evaluations"] += 1
             ta = a.split(" ")[1:]
@@ -540,6 +558,8 @@ def decide(pid, tier, seed):
                 except Exception as ex:      # a monitor that cannot read a trace must not hide anything
                     why = None
                     stats.setdefault("monitor_errors", []).append(f"{case[:80]}: {ex!r}")
+            if hp[0] in coqmon:
+                why = (why + "; " if why else "") + coqmon[hp[0]]
             if kind == "co":
                 if hp[0] in model:
                     diffs.append((sname, cfg, case, a, model[hp[0]], why))
@@ -631,6 +651,7 @@ def decide(pid, tier, seed):
                        "non-trivial = distinct (config, case) in which at least one child returned Pending at least once",
                   samples=stats["samples"], distribution=stats["dist"], outcomes=stats["outcomes"], projection=projname,
                   configurations=sorted(stats["configs"]), monitor_evaluations=stats["monitor_evals"],
+                  coq_predicate_evaluations_on_impl_traces=stats.get("coq_monitor_evals", 0),
                   monitor_errors=stats.get("monitor_errors", [])[:5],
                   traces_validated_against_impl=stats["evaluations"], correspondence_differences=len(diffs), monitor_failures=len(monfails),
                   known_findings_matched=len(known_hits), exhaustive=False),
